@@ -489,8 +489,60 @@ let cmd_synast file names =
       print_endline (String.concat " " (List.map hex_encode gi.gi_nnames))
     end
 
+(* lexast <grammar file> [<fuel>]: Front/LexAst.v — from the BYTES of the grammar file (front-end scanner model, definitions cut
+   by Sem.defs, structurally recursive pattern parser, token numbers from the TokMap model) to the lexical part, printed in
+   EXACTLY the format of `verifdump lexdump` (NONE when the model refuses the file).  With a fuel the DFA of the lexer-generator
+   model (Lex/LexGen.v) run on THAT grammar follows, in lexdump's format too: the whole output can be string-compared. *)
+let cmd_lexast args =
+  match args with
+  | file :: rest ->
+    let ic = open_in_bin file in
+    let n = in_channel_length ic in
+    let s = really_input_string ic n in
+    close_in ic;
+    let src = List.init n (fun i -> z_of_int (Char.code s.[i])) in
+    (match lexgrammar_of_source src with
+     | None -> print_endline "NONE"
+     | Some g ->
+       let buf = Buffer.create 4096 in
+       let rec pat p =
+         Buffer.add_string buf (Printf.sprintf "P %d " (List.length p));
+         List.iter (fun a ->
+           Buffer.add_string buf (Printf.sprintf "A %d " (List.length a));
+           List.iter (fun t -> match t with
+             | Chr c -> Buffer.add_string buf (Printf.sprintf "c %d " (int_of_z c))
+             | Rng (lo, hi) -> Buffer.add_string buf (Printf.sprintf "r %d %d " (int_of_z lo) (int_of_z hi))
+             | Dot -> Buffer.add_string buf "d "
+             | Ref i -> Buffer.add_string buf (Printf.sprintf "f %d " (int_of_nat i))
+             | Opt q -> Buffer.add_string buf "o "; pat q
+             | Rep q -> Buffer.add_string buf "s "; pat q
+             | Grp q -> Buffer.add_string buf "g "; pat q) a) p in
+       Buffer.add_string buf (Printf.sprintf "%d\n" (List.length g.regdefs));
+       List.iter (fun p -> pat p; Buffer.add_char buf '\n') g.regdefs;
+       Buffer.add_string buf (Printf.sprintf "%d\n" (List.length g.toks));
+       List.iter (fun (k, p) ->
+         (match k with
+          | Tok (ty, sl) -> Buffer.add_string buf (Printf.sprintf "T %d %d " (int_of_z ty) (if sl then 1 else 0))
+          | Ign -> Buffer.add_string buf "I ");
+         pat p; Buffer.add_char buf '\n') g.toks;
+       (match rest with
+        | fuel :: _ ->
+          (match lexgen g (nat_of_int_tr (int_of_string fuel)) with
+           | None -> Buffer.add_string buf (Printf.sprintf "LEXGEN-NONE wf=%b\n" (lex_wf g))
+           | Some (rows, acts) ->
+             Buffer.add_string buf (Printf.sprintf "%d\n" (List.length rows));
+             List.iter2 (fun r a ->
+               Buffer.add_string buf (Printf.sprintf "%d %d %d" (int_of_z a) (int_of_z r.dflt) (List.length r.cases));
+               List.iter (fun ((lo, hi), nx) ->
+                 Buffer.add_string buf (Printf.sprintf " %d %d %d" (int_of_z lo) (int_of_z hi) (int_of_z nx))) r.cases;
+               Buffer.add_char buf '\n') rows acts)
+        | [] -> ());
+       print_string (Buffer.contents buf))
+  | _ -> failwith "lexast"
+
 let () =
   match Array.to_list Sys.argv with
+  | _ :: "lexast" :: args -> cmd_lexast args
   | _ :: "synast" :: file :: rest -> cmd_synast file (rest = ["names"])
   | _ :: "lexgen" :: args -> cmd_lexgen args
   | _ :: "frontsem" :: file :: fpt :: nums when List.length nums = 12 -> cmd_frontsem file (int_of_string fpt) nums
